@@ -290,6 +290,11 @@ func vf16ECHServerKeys() []EncryptedClientHelloKey {
 }
 
 // vf16One runs one connection and returns the observation of its GREASE ECH extension.
+// vf16Cookie > 0: the HelloRetryRequest comes from the scripted server and carries a cookie of that many bytes (upstream's
+// server never sends one); the client then inserts a cookie extension into its second hello. Set by the tests before a
+// case runs (cases run one at a time).
+var vf16Cookie int
+
 func vf16One(st *vfStats, t vfFataler, ident vf16Ident, hrrGroup CurveID, serverHasECH bool, conn int) vf16Obs {
 	const name = "grease.c16.test"
 	ccfg := vfClientConfig(name)
@@ -308,6 +313,10 @@ func vf16One(st *vfStats, t vfFataler, ident vf16Ident, hrrGroup CurveID, server
 	}
 	pair.Cli = uc
 	pair.Srv = Server(sp, scfg)
+	if hrrGroup != 0 && vf16Cookie > 0 {
+		ck := bytes.Repeat([]byte{0xc0, 0x0c, byte(conn)}, vf16Cookie/3+1)[:vf16Cookie]
+		vsrvInstall(pair.Srv, &vsrvScript{HRR: true, HRRGroup: uint16(hrrGroup), HRRCookie: ck})
+	}
 	cerr, serr := pair.Handshake()
 	defer pair.Close()
 	hellos := vfClientHellosOnWire(cp.Written())
@@ -486,6 +495,10 @@ func TestVerifC16Directed(t *testing.T) {
 				vf16RunCase(st, t, id, hrr, sech)
 			}
 		}
+		// HelloRetryRequest with a cookie (scripted server)
+		vf16Cookie = 32
+		vf16RunCase(st, t, id, true, false)
+		vf16Cookie = 0
 	}
 }
 
@@ -496,6 +509,14 @@ func TestVerifC16Random(t *testing.T) {
 		ident := vf16GenIdent(rt, parrots)
 		hrr := rapid.Bool().Draw(rt, "hrr")
 		sech := rapid.IntRange(0, 3).Draw(rt, "serverECH") == 0
+		vf16Cookie = 0
+		if hrr {
+			vf16Cookie = rapid.SampledFrom([]int{0, 0, 1, 32, 300}).Draw(rt, "hrr_cookie")
+		}
+		if vf16Cookie > 0 {
+			st.Class("hrr-with-cookie")
+		}
 		vf16RunCase(st, rt, ident, hrr, sech)
+		vf16Cookie = 0
 	})
 }
